@@ -355,9 +355,74 @@ func lentObject() {
 	if eA != nil || vA != probe.EchoResult(3) {
 		vrt.Failf("call-failed/echo", "client A's own call failed meanwhile: %d, %v", vA, eA)
 	}
+	// a one-way post to the lent object is relayed and never answered
+	if step >= 3 {
+		if o, err := pB.Adopted(); err == nil {
+			postID := uint32(9101)
+			m := net.NewMessage(net.NewHeader(net.Post, w.ServiceID, o.Proxy().ObjectID(), 101, postID), nil)
+			cB.EP.Send(m)
+			vrt.Quiesce()
+			if mine.Calls["inc"] != 1 {
+				vrt.Failf("post-count/lent-object", "a posted inc() to the lent object ran %d times", mine.Calls["inc"])
+			}
+			checkWire("connB", cB, map[uint32]bool{postID: true})
+		}
+	}
 	checkWire("connA", cA, nil)
 	checkWire("connB", cB, nil)
 	vrt.Observe("step=%d", step)
+}
+
+// manyPending: more calls in flight on one connection than the endpoint's
+// ten preallocated handler slots; the call registered last is answered first
+// (it addresses another object); every call still gets its own answer.
+func manyPending() {
+	w := fx.Start(bus.Yes{})
+	c1 := w.MustConnect()
+	child, err := c1.Probe(1).Spawn()
+	if err != nil {
+		vrt.Failf("harness/spawn", "%v", err)
+		return
+	}
+	pRoot := c1.Probe(1)
+	w.Root.Gate = make(chan struct{})
+	const n = 11 // one executing + ten in the object's mailbox
+	vrt.Explore()
+	res := make([]int32, n)
+	errs := make([]error, n)
+	done := make([]bool, n)
+	var ws []*vrt.Thread
+	for i := 0; i < n; i++ {
+		i := i
+		ws = append(ws, vrt.GoWorker(fmt.Sprintf("slow%d", i), func() {
+			res[i], errs[i] = pRoot.Slow(int32(100 + i))
+			done[i] = true
+		}))
+		vrt.Quiesce() // the calls are issued one after the other: handler slots 0..10
+	}
+	var vc int32
+	var ec error
+	wc := vrt.GoWorker("last", func() { vc, ec = child.Echo(7) })
+	vrt.Quiesce()
+	if !wc.Done() {
+		vrt.Failf("hang/last-call", "the call to another object, issued last, is not answered while %d calls wait for a busy object", n)
+	} else if ec != nil || vc != probe.EchoResult(7) {
+		vrt.Failf("wrong-result/last-call", "echo(7) returned %d, %v", vc, ec)
+	}
+	close(w.Root.Gate)
+	vrt.Quiesce()
+	for i := 0; i < n; i++ {
+		switch {
+		case !done[i]:
+			vrt.Failf("hang/pending-call", "call %d of %d simultaneous calls on one connection (handler slot %d) never returned after the busy object was released", i, n+1, i)
+		case errs[i] != nil:
+			vrt.Failf("call-failed/pending-call", "slow(%d) failed: %v", 100+i, errs[i])
+		case res[i] != probe.EchoResult(int32(100+i)):
+			vrt.Failf("wrong-result/pending-call", "slow(%d) returned %d", 100+i, res[i])
+		}
+	}
+	checkWire("conn1", c1, nil)
+	vrt.Observe("done")
 }
 
 // cancel: a call with a cancel channel racing the closing of that channel.
@@ -544,6 +609,8 @@ func init() {
 		Doc: "two client objects on one connection (equal message counters) call the same action of two objects; the later call is answered first"})
 	reg.Register(&reg.Scenario{Property: "C04", Name: "lent-client-object", Body: lentObject, Quick: 1, Thorough: 2,
 		Doc: "client A lends an object it hosts to the service (adopt); client B obtains it (adopted) and calls echo(5) and echo(-7) on it through the service's relay while A calls the service: results and errors come back to their own callers"})
+	reg.Register(&reg.Scenario{Property: "C04", Name: "twelve-calls-in-flight", Body: manyPending, Quick: 0, Thorough: 1,
+		Doc: "eleven calls wait for a busy object on one connection (handler slots 0..10), a twelfth call to another object is answered first; then the object is released: every call gets its own answer"})
 	reg.Register(&reg.Scenario{Property: "C04", Name: "cancel-slow", Body: cancel(103, "slow(4)", fx.Int32(4), probe.EchoResult(4)), Quick: 2, Thorough: 3,
 		Doc: "Call(slow(4)) with a cancel channel || close(cancel)", MustFlag: []string{"cancelled"}})
 	reg.Register(&reg.Scenario{Property: "C04", Name: "cancel-noarg", Body: cancel(102, "noarg", nil, 42), Quick: 2, Thorough: 3,
